@@ -179,6 +179,7 @@ func (c *CheckCtx) checkFormatter(kinds []kindInfo) {
 	// grammars (E-GRAM: every embedding of a node whose slot is not known to be filled at that moment)
 	runs := c.addGram(gramWant{Shape: true})
 	maybeNil := map[string]string{}
+	tokNoChild := map[string]string{}
 	anyEmbeds := 0
 	for _, gn := range sortedKeys(runs) {
 		r := runs[gn]
@@ -191,14 +192,21 @@ func (c *CheckCtx) checkFormatter(kinds []kindInfo) {
 				maybeNil[k] = v
 			}
 		}
+		for k, v := range r.Res.TokNoChild {
+			if _, ok := tokNoChild[k]; !ok {
+				tokNoChild[k] = v
+			}
+		}
 	}
 	c.CoverageExtra["formatter_nil_safety"] = map[string]interface{}{
 		"vertex_slots_that_can_be_nil_in_parsed_trees": len(maybeNil),
 		"embeddings_of_unknown_kind":                   anyEmbeds,
 		"note": "a vertex slot counts as possibly nil when some grammar action embeds a node of that kind whose slot is not known to be filled at that moment (non-terminal contracts of E-GRAM, both grammars); embeddings of nodes whose kind the abstract interpreter does not know contribute nothing (possible misses, counted)",
 	}
+	carrierOnly := map[string]bool{}
 	for _, d := range dirs["carrier-only"] {
 		if fs := strings.Fields(d); len(fs) > 0 {
+			carrierOnly[fs[0]] = true
 			delete(maybeNil, fs[0])
 			c.assume("formatter/nil-safety: " + strings.TrimSpace(d))
 		}
@@ -272,8 +280,12 @@ func (c *CheckCtx) checkFormatter(kinds []kindInfo) {
 				case !ok && (pathSaysNil(p, s.Name) || parsedNil[k.Name+"."+s.Name]):
 					// absent stays absent
 				case !ok && pairedWith[k.Name][s.Name] != "" && pathSaysAbsent(p, pairedWith[k.Name][s.Name]):
-					// companion token of an absent child (pairing read off the printer's conditional default)
+					// companion token of an absent child (pairing read off the printer's conditional default): accepted only
+					// if no grammar action embeds a node of this kind with the token present and the child possibly absent
 					pairingUsed = true
+					if why, broken := tokNoChild[k.Name+"."+s.Name+"|"+pairedWith[k.Name][s.Name]]; broken && !carrierOnly[k.Name+"."+s.Name] {
+						canonBad = append(canonBad, fmt.Sprintf("%s is left as parsed when %s is absent, but a parsed tree can have the token without the child (%s) [%s]", s.Name, pairedWith[k.Name][s.Name], why, pc))
+					}
 				case !ok:
 					canonBad = append(canonBad, fmt.Sprintf("%s is never assigned: the parsed token (with the source's trivia) stays [%s]", s.Name, pc))
 				case v == "nil", strings.HasPrefix(v, "result(f."), strings.HasPrefix(v, "make:"):
